@@ -522,18 +522,22 @@ func genHdr(c *lib.Ctx, tag string) {
 	r := c.Rand.Fork(tag)
 	c.Comment("SCION request header: " + tag)
 	defer func() { scionLocal16, scionRemoteIP = false, netip.Addr{} }()
-	n := c.Scale(24, 200)
+	// every combination of local address form x remote address form x authenticator, systematically
+	n := c.Scale(32, 256)
 	for i := 0; i < n; i++ {
-		scionLocal16 = r.Bool()
+		scionLocal16 = i&1 != 0
 		scionRemoteIP = netip.Addr{}
-		switch r.Intn(4) {
+		switch i >> 1 & 3 {
 		case 0:
 			scionRemoteIP = netip.AddrFrom16(netip.MustParseAddr("127.0.0.1").As16()) // IPv4-mapped form of the peer's address
 		case 1:
 			scionRemoteIP = netip.MustParseAddr("fd00::" + fmt.Sprintf("%x", 1+r.Intn(65000))) // a real IPv6 host (datagrams still go to the peer)
 		}
-		dscp := uint8(r.Pick64([]int64{0, 1, 46, 63, 64, 255, int64(r.Intn(256))}))
-		auth := r.Bool()
+		auth := i>>3&1 != 0
+		dscp := uint8(r.Pick64([]int64{0, 1, 46, 62, 63, int64(r.Intn(64)), int64(r.Intn(64))}))
+		if r.Chance(10) {
+			dscp = uint8(r.Pick64([]int64{64, 255, int64(64 + r.Intn(192))})) // refused by udp.SetDSCP: panic before the request
+		}
 		sl := &scionLive{c: &client.SCIONClient{Log: logger, DSCP: dscp}}
 		cfg := exchCfg{il: false, deadline: 300 * time.Millisecond, spaoKey: auth}
 		theDaemon.take()
